@@ -95,12 +95,36 @@ impl Property for C14 {
             }
             programs.push(list);
         }
-        json!({"nthreads": nthreads, "modules": modules, "programs": programs, "stress": stress, "collector": collector})
+        // in half of the rounds every thread starts with the same program over field names and
+        // strings that this VM has never seen: all threads compile it at the same moment, so
+        // anything keyed on "the first time a name is seen" (interning of field names and string
+        // literals, symbol tables) is entered concurrently for the same keys
+        if t.chance(1, 2) {
+            let nf = 6 + t.pick(10);
+            let tag = t.pick(1000);
+            let mut src = String::from(NO_PRELUDE_HEADER);
+            let mut sum = String::from("0");
+            for k in 0..nf {
+                src.push_str(&format!("let get{k} r = r.fresh_{tag}_{k}\n", k = k, tag = tag));
+                sum = format!("{} #Int+ get{k} {{ fresh_{tag}_{k} = {v}, pad_{tag}_{k} = \"s{k}\" }}", sum, k = k, tag = tag, v = k + 1);
+            }
+            src.push_str(&sum);
+            src.push('\n');
+            for list in programs.iter_mut() {
+                list.insert(0, json!({"kind": "fresh_names", "src": src}));
+            }
+        }
+        // a third of the rounds: every thread runs its expressions under one and the same name
+        // (an embedder calling `run_expr("<top>", ..)` from all its threads)
+        let same_name = t.chance(1, 3);
+        json!({"nthreads": nthreads, "modules": modules, "programs": programs, "stress": stress, "collector": collector, "same_name": same_name})
     }
     fn exec(&self, _ctx: &mut WorkerCtx, case: &Value) -> Value {
         let modules: Vec<String> = serde_json::from_value(case["modules"].clone()).unwrap();
         let programs: Vec<Vec<Value>> = serde_json::from_value(case["programs"].clone()).unwrap();
         let settings = Settings { prelude: false, ..Settings::default() };
+        // every thread evaluates its expressions under one and the same module name
+        let same_name = case["same_name"] == true;
         let make_vm = || {
             let vm = gl::new_vm(settings);
             {
@@ -120,7 +144,8 @@ impl Property for C14 {
             let th = solo_vm.new_thread().expect("thread");
             let mut outs = vec![];
             for (pi, p) in list.iter().enumerate() {
-                outs.push(gl::run(&th, &format!("t{}p{}", ti, pi), p["src"].as_str().unwrap()));
+                let name = if same_name { "prog".to_string() } else { format!("t{}p{}", ti, pi) };
+                outs.push(gl::run(&th, &name, p["src"].as_str().unwrap()));
             }
             solo.push(outs);
         }
@@ -148,7 +173,8 @@ impl Property for C14 {
                         barrier.wait();
                         let mut outs = vec![];
                         for (pi, p) in list.iter().enumerate() {
-                            outs.push(gl::run(&th, &format!("t{}p{}", ti, pi), p["src"].as_str().unwrap()));
+                            let name = if same_name { "prog".to_string() } else { format!("t{}p{}", ti, pi) };
+                            outs.push(gl::run(&th, &name, p["src"].as_str().unwrap()));
                         }
                         let _ = tx.send((ti, outs));
                     })
@@ -312,6 +338,12 @@ impl Property for C14 {
         j.evals = evals;
         j.classes.push(format!("threads:{}", case["nthreads"]));
         j.classes.push(format!("stress:{}", case["stress"]));
+        if case["same_name"] == true {
+            j.classes.push("same_expression_name_on_all_threads".into());
+        }
+        if case["programs"].as_array().map(|ps| ps.iter().any(|l| l.as_array().map(|l| l.iter().any(|p| p["kind"] == "fresh_names")).unwrap_or(false))).unwrap_or(false) {
+            j.classes.push("fresh_names_compiled_simultaneously".into());
+        }
         // overlapping imports of modules nobody has loaded yet, or collections during the round
         let mut importers: BTreeMap<String, usize> = BTreeMap::new();
         for list in case["programs"].as_array().cloned().unwrap_or_default() {
